@@ -646,6 +646,41 @@ func runHistory(c *core.Case) {
 		c.Count("histories_with_partial_failure", 1)
 		c.Count("partial:"+partialForm, 1)
 	}
+	// ---- a request that arrives in two pieces (a quarter of the histories).
+	// The handler answers as soon as it is given the request; it does not read
+	// the payload.  Its successful write is on the output stream when it has
+	// returned ("after Serve finishes running the handler, it flushes the output
+	// stream"), not only when the peer has got round to finishing its request.
+	if c.Index%4 == 1 && partialForm == "" { // (a call that failed in mid-element may have cost the session its output)
+		injMu.Lock()
+		injMode["split"] = []string{"tokens", "encode", "encodeelement"}[(c.Index/4)%3]
+		injMu.Unlock()
+		before := p.Lib.WrittenLen()
+		p.Peer.Write([]byte("<iq type='get' id='split' from='peer@example.org/p'><q xmlns='urn:verif:h'><part>first half"))
+		seen := make(chan struct{})
+		var giveUp atomic.Bool
+		go func() {
+			for !giveUp.Load() {
+				// the complete reply: its marker and, after it, the end of an iq
+				if w := p.Lib.WrittenFrom(before); bytes.Contains(w, []byte(`"split"`)) && bytes.Contains(w[bytes.Index(w, []byte(`"split"`)):], []byte("</iq>")) {
+					close(seen)
+					return
+				}
+				time.Sleep(500 * time.Microsecond)
+			}
+		}()
+		fin, quiet := stall.AwaitQuiet(seen, progress, 3*time.Second, 60*time.Second)
+		giveUp.Store(true)
+		switch {
+		case fin:
+			c.Count("handler_replies_on_the_wire_before_the_rest_of_their_request_arrived", 1)
+		case quiet:
+			c.Violate("wire:HandlerReply:withheld-until-request-complete", "the peer sent the first half of a request; the handler wrote its reply (without error) and returned, and nothing moves any more: the reply is not on the wire, it waits for the rest of the request\nwire since the request: %q", p.Lib.WrittenFrom(before))
+		default:
+			c.Inconclusive("split request: the reply did not appear and the system did not become quiet")
+		}
+		p.Peer.Write([]byte(", second half</part></q></iq>"))
+	}
 	p.ClosePeer()
 	var serveErr error
 	serveFin := make(chan struct{})
@@ -917,7 +952,7 @@ func trunc(s string) string {
 
 // Prop returns the C05 check.
 func Prop() *core.Prop {
-	req := []string{"histories", "histories_with_transmits_racing_close", "C10/transmits_overlapping_a_close", "sessions_from_the_default_negotiator", "s2s_sessions_whose_peer_header_omits_to", "received_sessions_from_the_default_negotiator", "received_s2s_sessions_from_the_default_negotiator", "stanzas_in_raw_token_form_unresolved_name_plus_xmlns_attribute", "histories_with_partial_failure", "partial:Send:reader-fails", "partial:SendElement:payload-reader-fails", "partial:Encode:xmlstream.Marshaler-fails", "partial:Encode:xmlstream.WriterTo-fails", "partial:TokenWriter:closed-mid-element", "partial:Send:reader-ends-with-element-open", "partial:SendElement:payload-ends-with-element-open", "partial:Send:context-ends-while-write-blocked", "partial:TokenWriter:flushed-then-closed-mid-element", "marshaled_values_with_a_comment_before_their_children", "non_stanzas_in_raw_token_form_unresolved_name_plus_xmlns_attribute", "partial:Encode:xmlstream.WriterTo-panics", "partial:Encode:xmlstream.Marshaler-panics", "partial:EncodeIQElement:marshaler-panics", "partial:SendIQ:reader-panics", "partial:SendElement:payload-reader-panics", "partial:Send:reader-panics", "component_streams", "invalid_argument_calls", "incoming_stanzas_nobody_answers", "handler_replies_after_refused_writes", "handler_replies_abandoned_in_mid_element", "handlers_that_abandon_another_element_and_leave_the_reply_to_the_session", "calls_overlapping_another_actor", "elements_spanning_several_writes", "auto_replies", "wire_stanzas"}
+	req := []string{"histories", "histories_with_transmits_racing_close", "C10/transmits_overlapping_a_close", "sessions_from_the_default_negotiator", "s2s_sessions_whose_peer_header_omits_to", "received_sessions_from_the_default_negotiator", "received_s2s_sessions_from_the_default_negotiator", "stanzas_in_raw_token_form_unresolved_name_plus_xmlns_attribute", "histories_with_partial_failure", "partial:Send:reader-fails", "partial:SendElement:payload-reader-fails", "partial:Encode:xmlstream.Marshaler-fails", "partial:Encode:xmlstream.WriterTo-fails", "partial:TokenWriter:closed-mid-element", "partial:Send:reader-ends-with-element-open", "partial:SendElement:payload-ends-with-element-open", "partial:Send:context-ends-while-write-blocked", "partial:TokenWriter:flushed-then-closed-mid-element", "marshaled_values_with_a_comment_before_their_children", "non_stanzas_in_raw_token_form_unresolved_name_plus_xmlns_attribute", "partial:Encode:xmlstream.WriterTo-panics", "partial:Encode:xmlstream.Marshaler-panics", "partial:EncodeIQElement:marshaler-panics", "partial:SendIQ:reader-panics", "partial:SendElement:payload-reader-panics", "partial:Send:reader-panics", "component_streams", "invalid_argument_calls", "incoming_stanzas_nobody_answers", "handler_replies_after_refused_writes", "handler_replies_abandoned_in_mid_element", "handlers_that_abandon_another_element_and_leave_the_reply_to_the_session", "handler_replies_on_the_wire_before_the_rest_of_their_request_arrived", "calls_overlapping_another_actor", "elements_spanning_several_writes", "auto_replies", "wire_stanzas"}
 	for _, e := range []string{"Send", "SendElement", "Encode", "EncodeElement", "TokenWriter", "HandlerReply",
 		"SendIQ", "SendIQElement", "EncodeIQ", "EncodeIQElement", "UnmarshalIQ", "UnmarshalIQElement", "IterIQ", "IterIQElement",
 		"SendMessage", "SendMessageElement", "EncodeMessage", "EncodeMessageElement",
